@@ -317,7 +317,9 @@ func (b *backend) HeadGet(w http.ResponseWriter, r *http.Request) error {
 	}
 
 	w.Header().Set("Content-Type", vcard.MIMEType)
-	if ao.ContentLength > 0 {
+	if ao.ContentLength > 0 && r.Method == http.MethodHead {
+		// The body of a GET response is encoded below: its length isn't
+		// necessarily the length the backend has stored
 		w.Header().Set("Content-Length", strconv.FormatInt(ao.ContentLength, 10))
 	}
 	if ao.ETag != "" {
